@@ -26,10 +26,14 @@ without=$(CARGO_TARGET_DIR=$wt/target cargo test -p embedded-cli --offline --tes
 echo "demo without change: $without" | tee -a $log
 rm embedded-cli/tests/seed_demo.rs
 git apply $d/patch.diff
-for c in "$@"; do
-  out=$(cd /verif && VP_REPO=$wt ./check $c 2>&1)
+for spec in "$@"; do
+  # spec = Cxx or Cxx:substring (restrict to the quick-tier harnesses whose name contains it)
+  c=${spec%%:*}
+  only=""
+  if [ "$spec" != "$c" ]; then only="--only ${spec#*:}"; fi
+  out=$(cd /verif && VP_REPO=$wt ./check $c $only 2>&1)
   rc=$?
-  echo "check $c rc=$rc" | tee -a $log
+  echo "check $c rc=$rc ${only}" | tee -a $log
   echo "$out" | grep -aE "VIOLATION|INCONCLUSIVE|FAIL |discharged" | cut -c1-300 | tee -a $log
 done
 git checkout -q -- .
